@@ -7,12 +7,16 @@ Code-following part: the first loop of `IRGenerator.generate_IR` reduced to name
 `_extract_namespace_ast_node` (the namespace node is stored under `base_name(ns, ns)`, *unconditionally*),
 `_add_data_types_and_routes_to_api` with `_create_type` / `_create_alias` / `_create_annotation` /
 `_create_annotation_type` / `_create_route` (exact-name test `item.name in env` on the per-namespace environment,
-which starts as a copy of `default_env` = the built-in type classes) and `_check_canonical_name_available`
-(`_get_base_name`: `name.replace('_','').replace('/','').lower() + ns.replace('_','').lower()`; routes may repeat a
-canonical name against routes only).  Python partiality is explicit: the "already defined" message reads
-`existing._ast_node`, which a built-in class, an `ApiRoutesByVersion` and an `AnnotationType` do not have
-(`AttributeError`); the conflict message calls `_get_user_friendly_item_type_as_string`, which has no branch for
-`AstAnnotationDef` (`AssertionError`).
+which starts as a copy of `default_env` = the built-in type classes), `_raise_symbol_already_defined` and
+`_check_canonical_name_available` (`_get_base_name`: `name.replace('_','').replace('/','').lower() +
+ns.replace('_','').lower()`; routes may repeat a canonical name against routes only).
+
+Python partiality that is left in this pass: `_raise_symbol_already_defined` reads
+`existing.at_version[min(existing.at_version)]` of an `ApiRoutesByVersion`; `min` of an empty dictionary raises
+`ValueError`.  `_create_route` never leaves an empty `ApiRoutesByVersion` in an environment, which is what
+`register_no_crash` proves.  (The location of what is already there is read with `getattr(·, '_ast_node', None)`:
+built-in classes have none and are reported as "built-in"; `_get_user_friendly_item_type_as_string` has a branch
+for every one of the six AST classes that can be stored.)
 
 Not modelled (assumed well formed): annotation arguments, annotation-type parameters, `Struct.__init__`'s own
 parameter check, patches (they are keyed by the same canonical name in a separate dictionary), imports (bound to the
@@ -74,8 +78,8 @@ def builtinAnnotations : List Name := Tables.feBuiltinAnnotations.map String.toL
 
 /-- what `env[name]` holds -/
 inductive EnvEntry where
-  | user (hasAstNode : Bool)      -- Struct / Union / Alias / Annotation (True), AnnotationType (False)
-  | routes (versions : List Int)  -- ApiRoutesByVersion
+  | user                          -- Struct / Union / Alias / Annotation / AnnotationType
+  | routes (versions : List Int)  -- ApiRoutesByVersion (keys of `at_version`)
   deriving DecidableEq, Repr, Inhabited
 
 structure State where
@@ -102,24 +106,26 @@ def checkCanon (st : State) (c : Cls) (name ns : Name) (allowDup : Bool) : Excep
   | none => .ok { st with canon := (k, c) :: st.canon }
   | some stored =>
     if c == stored && allowDup then .ok st
-    else if c == .annotation || stored == .annotation then .error (.crash .assertionError)
     else .error (.specerr .nameConflict)
+
+/-- `_raise_symbol_already_defined(existing, item)`; `none` = a built-in type class (no `_ast_node`: "built-in") -/
+def symbolAlreadyDefined : Option EnvEntry → Err
+  | some (.routes []) => .crash .valueError       -- `min(existing.at_version)` of an empty dictionary
+  | _ => .specerr .symbolDefined
 
 /-- `_create_*` followed by `_check_canonical_name_available` for one definition of namespace `ns` -/
 def addItem (st : State) (ns : Name) (x : Item) : Except Err State :=
-  if builtinTypes.contains x.name then .error (.crash .attributeError) else
+  if builtinTypes.contains x.name then .error (symbolAlreadyDefined none) else    -- `item.name in env`: a class
   match x.kind, st.env.lookup (ns, x.name) with
   | .route v, some (.routes vs) =>
     if vs.contains v then .error (.specerr .routeVersionDefined)
     else checkCanon { st with env := ((ns, x.name), .routes (v :: vs)) :: st.env } .route x.name ns true
   | .route v, none =>
     checkCanon { st with env := ((ns, x.name), .routes [v]) :: st.env } .route x.name ns true
-  | _, some (.user true) => .error (.specerr .symbolDefined)
-  | _, some (.user false) => .error (.crash .attributeError)
-  | _, some (.routes _) => .error (.crash .attributeError)
+  | _, some e => .error (symbolAlreadyDefined (some e))
   | k, none =>
     if k == .annotationType && builtinAnnotations.contains x.name then .error (.specerr .builtinAnnotation)
-    else checkCanon { st with env := ((ns, x.name), .user (k != .annotationType)) :: st.env } k.cls x.name ns false
+    else checkCanon { st with env := ((ns, x.name), .user) :: st.env } k.cls x.name ns false
 
 def addItems (st : State) (ns : Name) : List Item → Except Err State
   | [] => .ok st
